@@ -1,1 +1,57 @@
-fn main(){}
+//! mon_text — monitors for C15 (UCI parser) and C17 (PGN reader).
+
+mod c15;
+mod c17;
+mod strgen;
+
+use monlib::{json, Args, Report};
+use refchess::gen;
+
+fn main() {
+    let args = Args::parse();
+    monlib::quiet_panics();
+    let prop = args.cmd.clone();
+    let mut rep = Report::new(&prop.to_uppercase());
+    if let Some(path) = &args.replay {
+        let case = monlib::read_replay(path);
+        let case = if case.get("case").is_some() { case["case"].clone() } else { case };
+        match prop.as_str() {
+            "c15" => c15::replay(&case, &mut rep),
+            "c17" => c17::replay(&case, &mut rep),
+            _ => panic!("unknown"),
+        }
+        println!("replay: {} violation(s)", rep.violation_count);
+        for v in &rep.violations { println!("  {} :: {}", v.sig, v.detail); }
+        std::process::exit(if rep.violation_count > 0 { 1 } else { 0 });
+    }
+    let mut rng = gen::rng(args.seed, args.shard, 15);
+    match prop.as_str() {
+        "c15" => {
+            let mut starts = gen::Starts::new(4095, 30000, args.shard as usize * 5);
+            let n = args.budget(400_000, 8_000_000) / args.nshards.max(1);
+            for i in 0..n {
+                match i % 4 {
+                    0 | 1 => c15::positive(&mut rng, &mut starts, &mut rep),
+                    2 => c15::negative(&mut rng, &mut starts, &mut rep),
+                    _ => c15::fuzz(&mut rng, &mut starts, &mut rep),
+                }
+            }
+            if args.shard == 0 {
+                c15::move_round_trip(&mut rep);
+            }
+        }
+        "c17" => {
+            let n = args.budget(4_000, 80_000) / args.nshards.max(1);
+            let cfgs = if args.thorough { 40 } else { 20 };
+            for _ in 0..n {
+                c17::check_database(&mut rng, &mut rep, cfgs);
+            }
+        }
+        other => {
+            eprintln!("unknown monitor {:?}", other);
+            std::process::exit(2);
+        }
+    }
+    rep.extra.insert("seed".into(), json!(args.seed));
+    rep.finish(&args);
+}
